@@ -581,7 +581,11 @@ def prepass(text, opaque=None, log=None):
             hits += 1
             pos = i + len(pat)
         if hits == 0:
-            raise ExtractError("O1: opaque expression %r not found" % o["expr"])
+            # the abstracted expression no longer occurs (the code changed): nothing to abstract; what replaced it is
+            # verified as it stands or is rejected by the verifier (UNDECIDED)
+            if log is not None:
+                log.append({"rule": "O1-absent", "expr": o["expr"]})
+            continue
         if log is not None:
             log.append({"rule": "O1", "expr": o["expr"], "call": o["call"], "occurrences": hits})
     # N4
